@@ -75,9 +75,26 @@ func main() {
 	defer o.Close()
 	r := hlib.NewRand(cfg.Seed)
 
+	big := len(cfg.Args) > 0 && cfg.Args[0] == "big"
 	if cfg.Replay != "" {
 		for _, l := range hlib.ReplayLines(cfg.Replay) {
 			ws := strings.Fields(l)
+			// run big: a `prog` line replays alone; a `gaps`/`coverall` line of a big program carries the spec that
+			// rebuilds the program (`@big:<shape>:<N>:<holes>:<seed>#<site>`): all lines of that program are re-emitted
+			if len(ws) > 0 && ws[0] == "prog" {
+				runProg(o, parseCase(l), "", true)
+				continue
+			}
+			if len(ws) > 2 && strings.HasPrefix(ws[2], "@big:") {
+				t := strings.TrimPrefix(ws[2], "@big:")
+				if i := strings.Index(t, "#"); i >= 0 {
+					t = t[:i]
+				}
+				if sp, ok := parseBigSpec(t); ok {
+					runBig(o, sp, true)
+					continue
+				}
+			}
 			if len(ws) < 2 || ws[0] != "gaps" {
 				continue
 			}
@@ -90,6 +107,11 @@ func main() {
 			}
 			runCase(o, ranges.RangeFromString(ws[1]), rs)
 		}
+		return
+	}
+
+	if big {
+		bigMode(cfg, o)
 		return
 	}
 
@@ -170,4 +192,73 @@ func main() {
 		}
 	}
 	o.Stat("random_sets", nRandom)
+
+	// 4. long range lists (element-count thresholds: sizes around the powers of two up to 65 k and beyond): disjoint
+	// fields with holes, many empty ranges, adjacent and duplicate ranges, overlapping ranges; given in random order
+	sizes := []int{31, 32, 33, 255, 256, 257, 511, 512, 1023, 1024, 1025, 4095, 4096, 4097, 65535, 65536, 70001}
+	reps := 1
+	if cfg.Thorough() {
+		sizes = append(sizes, 131071, 262145)
+		reps = 8
+	}
+	nLong := 0
+	for rep := 0; rep < reps; rep++ {
+		for _, n := range sizes {
+			for variant := 0; variant < 4; variant++ {
+				if n > 4097 && !cfg.Thorough() && variant != int(r.Intn(4)) && variant != 1 {
+					continue
+				}
+				rs := make([]ranges.Range, 0, n)
+				pos := int64(r.Range(0, 3))
+				for len(rs) < n {
+					w := int64(r.Range(1, 9))
+					switch variant {
+					case 0: // disjoint, holes of 0..17 bits (one-bit holes included: the known class)
+						rs = append(rs, ranges.Range{Start: pos, Len: w})
+						pos += w + int64(r.Intn(3))*int64(r.Range(1, 17))/2
+					case 1: // many empty ranges: at field starts, stops, inside fields, inside holes
+						rs = append(rs, ranges.Range{Start: pos, Len: w})
+						for k := r.Intn(4); k > 0 && len(rs) < n; k-- {
+							rs = append(rs, ranges.Range{Start: pos + int64(r.Range(-2, int(w)+3)), Len: 0})
+						}
+						pos += w + int64(r.Intn(2))*int64(r.Range(2, 9))
+					case 2: // adjacent runs and duplicates
+						rs = append(rs, ranges.Range{Start: pos, Len: w})
+						for k := r.Intn(3); k > 0 && len(rs) < n; k-- {
+							rs = append(rs, ranges.Range{Start: pos, Len: w})
+						}
+						pos += w
+						if r.Intn(5) == 0 {
+							pos += int64(r.Range(2, 30))
+						}
+					default: // overlapping: long ranges over short ones
+						l := w
+						if r.Intn(8) == 0 {
+							l = int64(r.Range(10, 400))
+						}
+						rs = append(rs, ranges.Range{Start: pos, Len: l})
+						pos += int64(r.Range(0, 14))
+					}
+				}
+				total := int64(0)
+				for i := range rs {
+					if rs[i].Start < 0 {
+						rs[i].Start = 0
+					}
+					total = max(total, rs[i].Stop())
+				}
+				total += int64(r.Intn(3)) * int64(r.Range(1, 9))
+				if r.Intn(4) != 0 {
+					for i := len(rs) - 1; i > 0; i-- {
+						j := r.Intn(i + 1)
+						rs[i], rs[j] = rs[j], rs[i]
+					}
+				}
+				runCase(o, ranges.Range{Start: 0, Len: total}, rs)
+				nLong++
+			}
+		}
+	}
+	o.Stat("long_lists", nLong)
+	o.Stat("long_lists_max_ranges", sizes[len(sizes)-1])
 }
